@@ -5,7 +5,7 @@ mkdir -p /var/tmp/fx
 python3 /verif/lib/devscratch.py /var/tmp/fx/s1 >/dev/null || exit 2
 cd /var/tmp/fx/s1
 log=/var/tmp/fx/dev.$h.log
-/usr/bin/time -f "wall %es maxrss %MKB" timeout $t cargo kani --no-default-features --features system-alloc -Z stubbing -Z unstable-options --harness "$h" --no-assertion-reach-checks --target-dir /var/tmp/fx/t1 > $log 2>&1
+ulimit -v 25000000; /usr/bin/time -f "wall %es maxrss %MKB" timeout $t cargo kani --no-default-features --features system-alloc -Z stubbing -Z unstable-options --harness "$h" --no-assertion-reach-checks --target-dir /var/tmp/fx/t1 > $log 2>&1
 rc=$?; echo "rc=$rc"
 grep -E "^error|panicked at|Runtime (Symex|Solver|decision)|variables|VERIFICATION|Verification Time|cover properties|of [0-9]+ failed|Failed Checks|out of memory|timed out|wall " $log | tail -25
 grep -B2 -A5 "Status: FAILURE" $log | head -60
